@@ -2,7 +2,7 @@
 usage: keep_seed.py <prop> <n> <worktree> "<what it needs to manifest>" [--check-result CAUGHT|MISSED] [--note text]"""
 import argparse, json, os, shutil, subprocess, sys
 ap = argparse.ArgumentParser(); ap.add_argument("prop"); ap.add_argument("n"); ap.add_argument("wt"); ap.add_argument("needs")
-ap.add_argument("--check-result", default=""); ap.add_argument("--note", default="")
+ap.add_argument("--check-result", default=""); ap.add_argument("--note", default=""); ap.add_argument("--as", dest="as_n", default=None, help="index to store under (second round: 3, 4)")
 a = ap.parse_args()
 wt = a.wt; sd = os.path.join(wt, "_seed"); diff = os.path.join(sd, f"change{a.n}.diff"); demo = os.path.join(sd, f"change{a.n}_demo.py")
 def run(cmd, **kw): return subprocess.run(cmd, cwd=wt, capture_output=True, text=True, timeout=1200, **kw)
@@ -19,12 +19,15 @@ d1 = run(["/venv/bin/python", demo]).returncode
 mut_ids, mut_tail = failing_ids()
 run(["git", "checkout", "--", "custom_components"])
 ok = d0 == 0 and d1 != 0 and mut_ids == base_ids
-print(f"{a.prop}-{a.n}: demo clean rc={d0}, demo with change rc={d1}, suite clean '{base_tail}', with change '{mut_tail}', same failing set={mut_ids == base_ids} -> {'KEEP' if ok else 'REJECT'}")
+print(f"{a.prop}-{a.as_n or a.n}: demo clean rc={d0}, demo with change rc={d1}, suite clean '{base_tail}', with change '{mut_tail}', same failing set={mut_ids == base_ids} -> {'KEEP' if ok else 'REJECT'}")
 if ok:
-    out = os.path.join("/verif/seeded", f"{a.prop}-{a.n}"); os.makedirs(out, exist_ok=True)
+    out = os.path.join("/verif/seeded", f"{a.prop}-{a.as_n or a.n}"); os.makedirs(out, exist_ok=True)
+    for extra in ("harness.py",):
+        if os.path.exists(os.path.join(sd, extra)):
+            shutil.copy(os.path.join(sd, extra), os.path.join(out, extra))
     shutil.copy(diff, os.path.join(out, "patch.diff")); shutil.copy(demo, os.path.join(out, "demo.py"))
     meta = {"property": a.prop, "breaks": a.prop, "needs_to_manifest": a.needs, "confirmed": {"demo_clean_rc": d0, "demo_with_change_rc": d1, "suite_clean": base_tail, "suite_with_change": mut_tail, "failing_set_identical": True},
-            "ran": [f"cd <scratch worktree> && /venv/bin/python _seed/change{a.n}_demo.py (clean and with patch applied)", "/venv/bin/python -m pytest -q -p no:cacheprovider -rfE (clean and with patch applied; failing ids compared)", f"/venv/bin/python tools/mutant.py {a.prop} --patch seeded/{a.prop}-{a.n}/patch.diff"],
+            "ran": [f"cd <scratch worktree> && /venv/bin/python _seed/change{a.n}_demo.py (clean and with patch applied)", "/venv/bin/python -m pytest -q -p no:cacheprovider -rfE (clean and with patch applied; failing ids compared)", f"/venv/bin/python tools/mutant.py {a.prop} --patch seeded/{a.prop}-{a.as_n or a.n}/patch.diff"],
             "check_result": a.check_result, "note": a.note, "origin": "independent sub-agent given only the property text and a scratch worktree"}
     json.dump(meta, open(os.path.join(out, "meta.json"), "w"), indent=1)
 sys.exit(0 if ok else 1)
